@@ -784,3 +784,30 @@ func (e *Explorer) Explore(h *Harness, timeout time.Duration) *HarnessResult {
 	e.res.WallS = time.Since(t0).Seconds()
 	return e.res
 }
+
+// runForResult executes a niladic string-returning function without unknowns.
+func (w *Worker) runForResult(fn *ssa.Function) (out string, kind string) {
+	i := w.in
+	h := &Harness{ID: fn.Name(), Fn: fn, Unwind: 64, MaxPaths: 1, Budget: 400000000}
+	ex := &pathExec{h: h, unwind: 64, covers: map[string]bool{}}
+	i.ex = ex
+	i.ts = NewTermStore()
+	i.steps, i.budget, i.depth, i.clock, i.uuidSeq = 0, h.Budget, 0, 0, 0
+	i.tr.on = true
+	i.pathDeadline = time.Now().Add(w.ex.pathTimeout)
+	w.solver.BeginPath()
+	defer func() {
+		if r := recover(); r != nil {
+			kind, out = "error", short(r)
+		}
+		w.solver.EndPath()
+		i.tr.undo()
+		i.ex = nil
+	}()
+	res := i.callSSA(nil, 0, fn, nil, nil)
+	s, ok := res.(string)
+	if !ok {
+		return describe(res), "symbolic-result"
+	}
+	return s, "pass"
+}
